@@ -37,6 +37,7 @@ type Config struct {
 	Endpoints                                                          *op.Endpoints // legacy router endpoints (nil: defaults)
 	IssuerFn                                                           func(bool) (op.IssuerFromRequest, error)
 	UserCode                                                           *op.UserCodeConfig
+	DeviceLifetime, DevicePoll                                         time.Duration // 0 => 5 min / 5 s
 }
 
 type Bed struct {
@@ -68,6 +69,13 @@ func New(cfg Config) (*Bed, error) {
 	if cfg.UserCode != nil {
 		uc = *cfg.UserCode
 	}
+	devLifetime, devPoll := 5*time.Minute, 5*time.Second
+	if cfg.DeviceLifetime != 0 {
+		devLifetime = cfg.DeviceLifetime
+	}
+	if cfg.DevicePoll != 0 {
+		devPoll = cfg.DevicePoll
+	}
 	oc := &op.Config{
 		CryptoKey:                b.CryptoKey,
 		DefaultLogoutRedirectURI: cfg.DefaultLogoutURI,
@@ -78,7 +86,7 @@ func New(cfg Config) (*Bed, error) {
 		RequestObjectSupported:   cfg.RequestObject,
 		SupportedClaims:          op.DefaultSupportedClaims,
 		DeviceAuthorization: op.DeviceAuthorizationConfig{
-			Lifetime: 5 * time.Minute, PollInterval: 5 * time.Second, UserFormPath: "/device", UserCode: uc,
+			Lifetime: devLifetime, PollInterval: devPoll, UserFormPath: "/device", UserCode: uc,
 		},
 	}
 	issuer := cfg.IssuerFn
